@@ -140,10 +140,11 @@ def run(ctx):
     ioerr_rule(ctx)
     # the reading primitives hand over exactly the bytes asked for or fail (shared with C03 / C11): a short read must
     # not become a shorter value
-    from .c11 import slice_rule, varint_rule, fixedbuf_rule
+    from .c11 import slice_rule, varint_rule, fixedbuf_rule, shortread_rule
     slice_rule(ctx)
     varint_rule(ctx)
     fixedbuf_rule(ctx)
+    shortread_rule(ctx)
     erronce(ctx)
     loops(ctx, nx)
     panics(ctx)
